@@ -15,3 +15,69 @@ package server
 //@   partial lock
 //@   requires qc.aq != nil && nolocks()
 //@   assert before "qc.aq.mu.Unlock()#2" nextbase: basis == len(qc.aq.q)
+
+// ---------------------------------------------------------------- lock-discipline sweep (PARTIAL)
+// For each function only the lock typestate obligations are generated: every Lock is of a mutex
+// this call does not hold, every Unlock of one it holds, and every mutex is as on entry on return.
+
+//@ func answerQueue.fulfill
+//@   props C12
+//@   locktypestate
+//@   partial lock
+//@   requires aq != nil && nolocks()
+
+//@ func answerQueue.reject
+//@   props C12
+//@   locktypestate
+//@   partial lock
+//@   requires aq != nil && nolocks()
+
+//@ func structReturner.AllocResults -> s, err
+//@   props C12
+//@   locktypestate
+//@   partial lock
+//@   requires sr != nil && nolocks()
+
+//@ func structReturner.Return
+//@   props C12
+//@   locktypestate
+//@   partial lock
+//@   requires sr != nil && nolocks()
+
+//@ func structReturner.answer -> ans, rel
+//@   props C12
+//@   locktypestate
+//@   partial lock
+//@   requires sr != nil && nolocks()
+
+//@ func returnEmbargoer.AllocResults -> s, err
+//@   props C12
+//@   locktypestate
+//@   partial lock
+//@   requires re != nil && nolocks()
+
+//@ func returnEmbargoer.Return
+//@   props C12
+//@   locktypestate
+//@   partial lock
+//@   requires re != nil && nolocks()
+
+//@ func returnEmbargoer.recv -> pc
+//@   props C12
+//@   locktypestate
+//@   partial lock
+//@   requires re != nil && nolocks()
+
+//@ func Server.start -> pc
+//@   props C12
+//@   locktypestate
+//@   partial lock
+//@   requires srv != nil && nolocks()
+//@   loop 0 "for"
+//@     invariant onlyheld(&srv.mu)
+
+//@ func Server.Shutdown
+//@   props C12
+//@   locktypestate
+//@   partial lock
+//@   requires srv != nil && nolocks()
